@@ -116,9 +116,19 @@ Inductive lobs :=
 
 Inductive scn :=
 | Live (lo hi : N) (o : lobs)
+| Blocked (wal_empty : bool) (lo hi : N) (stalled owner_is_backup snapshot_refused : bool) (o : lobs)
+    (* the consumer stalled mid-copy; meanwhile one transaction committed and a snapshot was requested *)
 | Cut (total : N) (full_ok : bool) (cut : N) (cut_ok : bool) (written full_len status : N).
 
 Record case := { c_fmt : fmt; c_vacuum : bool; c_compress : bool; c_remote : bool; c_scn : scn }.
+
+(* which backups copy the live main file and therefore hold the snapshot gate while copying — whether or
+   not there was anything in the WAL when the backup started *)
+Definition holds_gate (f : fmt) (vacuum : bool) : bool :=
+  match f with FBinary => negb vacuum | _ => false end.
+
+(* Store.Snapshot -> fsmSnapshot: snapshotCAS.Begin("snapshot") fails iff the gate is held *)
+Definition checkpoint_refused (w : world) : bool := gate w.
 
 Definition hdr_len : N := 8.   (* protoBufferLengthSize + an empty CommandBackupResponse *)
 
@@ -133,6 +143,16 @@ Definition check_case (c : case) : bool :=
         | OState (Some ka) (Some kb) kl true => obs_ok lo hi [ka; kb; kl]
         | _ => false
         end
+      else match o with OErr => true | _ => false end
+  | Blocked wal_empty lo hi stalled owner_is_backup snapshot_refused o =>
+      if valid_request c then
+        stalled
+        && Bool.eqb owner_is_backup (holds_gate (c_fmt c) (c_vacuum c))
+        && Bool.eqb snapshot_refused (holds_gate (c_fmt c) (c_vacuum c))
+        && match o with
+           | OState (Some ka) (Some kb) kl true => obs_ok lo hi [ka; kb; kl]
+           | _ => false
+           end
       else match o with OErr => true | _ => false end
   | Cut total full_ok cut cut_ok written full_len status =>
       let ok := client_ok hdr_len (total - hdr_len) cut in
